@@ -279,7 +279,7 @@ func checkEffects(r *Run, prog *Program, a *Anchors, pfx string, evalOnly bool) 
 				case modPath + ".options":
 					// value copies in locals are not shared; only an escaping allocation can be handed to option closures
 					if al.Heap {
-						r.Check(pfx+".per-call-allocation", "options@"+fn.Name(), prog.pos(al.Pos()), fn.Name() == "getOpts" || fn.Name() == "getDefaultOptions", "an escaping options struct is allocated outside getOpts/getDefaultOptions")
+						r.Check(pfx+".per-call-allocation", "options@"+fn.Name(), prog.pos(al.Pos()), fn == optRoles(prog).getOpts || fn == optRoles(prog).getDefault, "an escaping options struct is allocated outside getOpts/getDefaultOptions")
 					}
 				}
 			}
